@@ -509,7 +509,7 @@ func checkC04(c *runCtx) {
 		"liveness-refreshing traffic = authenticated requests/responses, Binding indications and application data from a known remote address")
 	p := newVTPool()
 	defer p.close()
-	dl := c01deadline(c, 150, 1500)
+	dl := c01deadline(c, 240, 1500)
 	depth := 7
 	if !c.quick() {
 		depth = 9
